@@ -3,6 +3,7 @@ package main
 import (
 	"go/types"
 	"sort"
+	"strings"
 
 	"golang.org/x/tools/go/ssa"
 )
@@ -221,4 +222,27 @@ func paramIndex(fn *ssa.Function, p *ssa.Parameter) int {
 		}
 	}
 	return -1
+}
+
+// reachSync: fn and the module functions it calls synchronously (plain calls, not go/defer), transitively.
+func (c *Ctx) reachSync(fn *ssa.Function) map[*ssa.Function]bool {
+	out := map[*ssa.Function]bool{}
+	var walk func(f *ssa.Function, d int)
+	walk = func(f *ssa.Function, d int) {
+		if out[f] || d > 4 || len(f.Blocks) == 0 {
+			return
+		}
+		out[f] = true
+		for _, b := range f.Blocks {
+			for _, in := range b.Instrs {
+				if call, ok := in.(*ssa.Call); ok {
+					if cal := call.Call.StaticCallee(); cal != nil && cal.Pkg != nil && strings.HasPrefix(cal.Pkg.Pkg.Path(), modPath) {
+						walk(cal, d+1)
+					}
+				}
+			}
+		}
+	}
+	walk(fn, 0)
+	return out
 }
